@@ -349,3 +349,56 @@ Proof.
   change (fold_left (fun a kv => md_set a (fst kv) (snd kv)) l []) with (md_build l).
   now rewrite (md_build_id l Hw).
 Qed.
+
+(** * the round-trip theorems of Value/CodecProofs.v with the JSON library instantiated *)
+
+Theorem envelope_roundtrip_json unframe nu dest m w :
+  envelope_ok (env_of dest m) -> framing_ok unframe (env_of dest m) ->
+  wrap jenc_env nu dest m = Ok w -> unwrap (jdec_env unframe) w = Ok (dest, m).
+Proof.
+  intros Hok [F1 F2]. apply envelope_roundtrip. intros b Hb. eapply jdec_jenc_env; eauto.
+Qed.
+
+(** the encoder never fails: with a destination, wrap succeeds and the bytes are known *)
+Theorem wrap_json_total nu dest m : dest <> [] ->
+  wrap jenc_env nu dest m = Ok (Msg nu (Some (frame_obj (env_members (env_of dest m)))) (Some [])).
+Proof. intros H. now rewrite (proj2 (wrap_outcomes jenc_env nu dest m) H). Qed.
+
+Theorem publisher_roundtrip_json unframe nu cfg inner_ok dest ms ft ws :
+  (forall m, In m ms -> envelope_ok (env_of dest m) /\ framing_ok unframe (env_of dest m)) ->
+  fwd_publish jenc_env nu cfg inner_ok dest ms = Ok (ft, ws) ->
+  ft = (if str_eqb cfg [] then default_forwarder_topic else cfg)
+  /\ map (unwrap (jdec_env unframe)) ws = map (fun m => Ok (dest, m)) ms.
+Proof.
+  intros H. apply publisher_roundtrip. intros m b Hin Hb. destruct (H m Hin) as [Hok [F1 F2]].
+  eapply jdec_jenc_env; eauto.
+Qed.
+
+(** reply marshaler with a string result: json.Marshal / Unmarshal of a Go string *)
+Theorem reply_roundtrip_string nu (p : rparams str) m :
+  utf8_valid (p_result str p) = true ->
+  marshal_reply str (fun r => Some (Some (enc_str r))) nu p = Ok m ->
+  unmarshal_reply str dec_str m = Ok (Rep str (p_result str p) (p_err str p)).
+Proof.
+  intros Hv. apply reply_roundtrip. intros b [= <-]. now apply dec_str_enc_str.
+Qed.
+
+(** * outside valid UTF-8 the encoder is not injective: every ill-formed byte becomes U+FFFD *)
+Theorem escape_not_injective : exists s1 s2, s1 <> s2 /\ enc_str s1 = enc_str s2.
+Proof. exists [255], [254]. split; [discriminate | reflexivity]. Qed.
+
+Theorem invalid_utf8_not_read_back :
+  exists s, utf8_valid s = false /\ dec_str (enc_str s) = Some fffd_raw /\ s <> fffd_raw.
+Proof. exists [255]. repeat split; try reflexivity. discriminate. Qed.
+
+(** two different messages (UUIDs that are not valid UTF-8) get the same envelope: no decoder
+    can give both back *)
+Theorem envelope_invalid_utf8_collapses :
+  exists dest m1 m2 w, m1 <> m2
+    /\ wrap jenc_env [85] dest m1 = Ok w /\ wrap jenc_env [85] dest m2 = Ok w
+    /\ forall jdec, ~ (unwrap jdec w = Ok (dest, m1) /\ unwrap jdec w = Ok (dest, m2)).
+Proof.
+  exists [116], (Msg [255] None None), (Msg [254] None None). eexists.
+  split; [discriminate|]. split; [reflexivity|]. split; [reflexivity|].
+  intros jdec [H1 H2]. rewrite H1 in H2. discriminate.
+Qed.
